@@ -187,6 +187,36 @@ def forward():
     return r
 
 
+def forward_concrete(alpha: float = 5.0, beta: float = 5.0, gamma: float = 5.0):
+    """the same identities for CONCRETE angles and symbolic lengths -- reaches cells outside the symbolic angle range of `forward`, in particular
+    needle-shaped cells whose three angles are all below 2 pi DEGREES (where the 'did you pass radians?' warning branch is taken)"""
+    S.new_ctx(timeout_ms=60000)
+    _install()
+    a, b, c = sym("a"), sym("b"), sym("c")
+    S.CTX.cons += [tz(x) >= S.rat(0.1) for x in (a, b, c)] + [tz(x) <= 100 for x in (a, b, c)]
+    paths = S.explore(lambda: _uc.lengths_and_angles_to_box_vectors(a, b, c, float(alpha), float(beta), float(gamma)))
+    G = Goals(60000)
+    ca, cb, cg = (S.rat(math.cos(math.radians(x))) for x in (alpha, beta, gamma))
+    tol = z3.RealVal("1/100000")
+    inp = {"a": a, "b": b, "c": c}
+    for i, (path, cons, assumed, (A, B, C)) in enumerate(paths):
+        prem = cons + path + assumed
+        G.add(f"norm_a[{i}]", prem, S.close(_dot(A, A), a * a, tol, tol), inp)
+        G.add(f"norm_b[{i}]", prem, S.close(_dot(B, B), b * b, tol, tol), inp)
+        G.add(f"norm_c[{i}]", prem, S.close(_dot(C, C), c * c, tol, tol), inp)
+        G.add(f"alpha_is_angle_b_c[{i}]", prem, S.close(_dot(B, C), tz(b) * tz(c) * ca, tol, tol), inp)
+        G.add(f"beta_is_angle_c_a[{i}]", prem, S.close(_dot(C, A), tz(c) * tz(a) * cb, tol, tol), inp)
+        G.add(f"gamma_is_angle_a_b[{i}]", prem, S.close(_dot(A, B), tz(a) * tz(b) * cg, tol, tol), inp)
+        G.add(f"orientation[{i}]", prem, z3.And(tz(A[1]) == 0, tz(A[2]) == 0, tz(B[2]) == 0, tz(A[0]) > 0, tz(B[1]) > 0, tz(C[2]) > 0), inp)
+
+    def rep(name, vals):
+        v = {"a": vals.get("a") or 1.0, "b": vals.get("b") or 1.5, "c": vals.get("c") or 2.0, "cos_alpha": math.cos(math.radians(alpha)), "cos_beta": math.cos(math.radians(beta)), "cos_gamma": math.cos(math.radians(gamma))}
+        return _replay_forward(name, v)
+    r = G.run(rep)
+    r["paths"] = len(paths)
+    return r
+
+
 def volume():
     """Trajectory.unitcell_volumes equals a b c sqrt(Gram) (closed form typed in independently), per frame"""
     S.new_ctx(timeout_ms=90000)
